@@ -196,6 +196,10 @@ func (w *World) deliver(name string, signer int, params []*big.Int, f func(ctx s
 		if err := f(cctx); err != nil {
 			res.result = 1
 			res.errMsg = err.Error()
+			// a withdrawal of credited tips that fails because the escrow pool cannot pay (C04)
+			if name == "WithdrawTip" && strings.Contains(res.errMsg, "insufficient funds") {
+				res.result = 3
+			}
 			return
 		}
 		write()
